@@ -81,6 +81,10 @@ theorem blocked_without_context_never_wakes (s : St) (th : Nat) (hb : s.blockedO
     (step (.extCancel c) s).1.blockedOn = some (th, none) :=
   C11.blocked_without_context_never_wakes s th hb c
 
+theorem creator_death_keeps_children (sys : Sys) (th : Nat) (h : (sys.thread th).shared = true) :
+    (killTh sys th).cancelled = sys.cancelled :=
+  C11.creator_death_keeps_children sys th h
+
 theorem attach_midrun_stops_full_fails : ¬ attach_midrun_stops_full := C11.attach_midrun_stops_full_fails
 
 theorem attach_midrun_stops_partial (a c : Ctx) (post : List Action) :
